@@ -64,6 +64,7 @@ func genC15(t *rapid.T) C15Case {
 	u := UniverseFor(t, tree, false)
 	u.Stateless = drawStateless(t)
 	operatorLikeNames(t, tree, u)
+	unicodeNames(t, tree, u)
 	c := C15Case{U: *u, Tree: tree}
 	redundant := rapid.Bool().Draw(t, "redundant")
 	c.Infix = m.RenderInfix(tree, m.InfixOpts{
